@@ -81,6 +81,18 @@ func newKeyPool(t *testing.T) *keyPool {
 	add("ed25519", k3, err)
 	k4, err := ecdsa.GenerateKey(elliptic.P256(), rand.Reader)
 	add("p256b", k4, err)
+	// weak and odd key sizes: the CA signs whatever key a well-formed, self-signed CSR carries
+	for _, bits := range []int{512, 1024, 1536, 3072} {
+		k, err := rsa.GenerateKey(rand.Reader, bits)
+		if err != nil {
+			continue // this Go version refuses to generate the size
+		}
+		add(fmt.Sprintf("rsa%d", bits), k, nil)
+	}
+	k5, err := ecdsa.GenerateKey(elliptic.P224(), rand.Reader)
+	add("p224", k5, err)
+	k6, err := ecdsa.GenerateKey(elliptic.P521(), rand.Reader)
+	add("p521", k6, err)
 	return kp
 }
 
@@ -108,9 +120,6 @@ var (
 
 func genCSR(r *vlib.Rand, kp *keyPool) genCsr {
 	ki := r.Intn(len(kp.signers))
-	if r.Chance(60) { // RSA signing is slow; prefer EC
-		ki = 1 + r.Intn(len(kp.signers)-1)
-	}
 	cn := ""
 	if r.Chance(40) {
 		cn = vlib.Pick(r, []string{"istiod.istio-system.svc", "spiffe://cluster.local/ns/istio-system/sa/istiod", "x", "root-ca"})
@@ -149,8 +158,9 @@ func genCSR(r *vlib.Rand, kp *keyPool) genCsr {
 		tmpl.ExtraExtensions = append(tmpl.ExtraExtensions, pkix.Extension{Id: asn1.ObjectIdentifier{1, 3, 6, 1, 4, 1, 99999, 1}, Value: []byte{0x05, 0x00}})
 	}
 	der, err := x509.CreateCertificateRequest(rand.Reader, tmpl, kp.signers[ki])
-	if err != nil {
-		panic(err)
+	for err != nil { // a key this Go version cannot sign a CSR with: fall back to the first EC key
+		ki = 1
+		der, err = x509.CreateCertificateRequest(rand.Reader, tmpl, kp.signers[ki])
 	}
 	status, kind := "CsrOk", "ok-"+kp.names[ki]
 	block := &pem.Block{Type: "CERTIFICATE REQUEST", Bytes: der}
